@@ -9,7 +9,8 @@ CONSTANTS MaxLen,     \* longest program
           MinStop,    \* STOP only enabled once the program has MinStop opcodes (simulation)
           MaxDepth,   \* bound on stack depth (keeps walks from drifting)
           Require,    \* focused profiles: only programs in which all these opcodes occur are emitted
-          RequireMods \* ... and all these symbolic modules
+          RequireMods, \* ... and all these symbolic modules
+          RequireEmptyBatch  \* ... and a MARK directly followed by the opcode that consumes it (an empty batch)
 
 VARIABLES prog, s
 vars == <<prog, s>>
@@ -65,6 +66,9 @@ EmitErr == (s.st = "run" /\ Len(prog) < MaxLen) =>
                   (t.st = "err" /\ t.why = "vm") => PrintT(<<"ERRPROG", ToJson(Append(prog, op))>>)
 OpsOf(p)  == {p[i].o : i \in DOMAIN p}
 ModsOf(p) == {p[i].m : i \in {j \in DOMAIN p : p[j].o \in {"GLOBAL", "INST"}}}
-Emit == (s.st = "stop" /\ Require \subseteq OpsOf(prog) /\ RequireMods \subseteq ModsOf(prog))
+SliceOps == {"SETITEMS", "APPENDS", "ADDITEMS", "TUPLE", "LIST", "DICT", "FROZENSET", "OBJ", "INST", "POP_MARK"}
+EmptyBatch(p) == \E i \in 1..(Len(p) - 1) : p[i].o = "MARK" /\ p[i + 1].o \in SliceOps
+Emit == (s.st = "stop" /\ Require \subseteq OpsOf(prog) /\ RequireMods \subseteq ModsOf(prog)
+         /\ (RequireEmptyBatch => EmptyBatch(prog)))
            => PrintT(<<"PROG", ToJson(prog)>>)
 =============================================================================
